@@ -3,6 +3,7 @@ CONSTANTS
   RegisterBeforeInit = FALSE
   Literal = {}
   ReleaseOnRefusal = TRUE
+  OwnAtTag = TRUE
   Streaming = {1}
 INIT Init
 NEXT Next
